@@ -38,7 +38,7 @@ ASSUMPTIONS = [
     "classes have unique names inside one case (the library identifies classes by __name__)",
     "a HybridClass root is passed as its _XoStruct (what kernels carry as argument type); hybrid classes declare "
     "dependencies on HybridClass objects in their class body, plain structs on Struct classes",
-    "array and union classes carry no declared dependencies",
+    "array classes carry no declared dependencies",
 ]
 EXHAUSTIVE_SCOPE = {
     "quick": "all graphs on <= 3 classes: 5 kinds per class x {no edge, structural edge, declared edge} per ordered pair (+ one optional back edge) x all non-empty root subsets in ascending and descending order",
@@ -145,14 +145,17 @@ def build_graph(case):
             H = type(nm, (xo.HybridClass,), body)
             dress[i] = H
             cls[i] = H._XoStruct
-        if kind in ("array", "unionref"):
+        if kind == "array":
             decl = []
+        if kind == "unionref" and decl:
+            cls[i]._depends_on = []  # a union class that declares dependencies (any class may)
         declared_late += decl
     for i, j in declared_late:
         if 0 <= j < len(nodes):
             cls[i]._depends_on.append(cls[j])
             G[names[i]].add(names[j])
-    return cls, names, G, kinds
+    members = {names[i]: [c.__name__ for c in cls[i]._reftypes] for i, nd in enumerate(nodes) if nd["kind_eff"] == "unionref"}
+    return cls, names, G, kinds, members
 
 
 def closure(G, roots):
@@ -218,7 +221,7 @@ def run_case(case):
     from xobjects.context import sort_classes
 
     cbuild.quiet()
-    cls, names, G, kinds = build_graph(case)
+    cls, names, G, kinds, members = build_graph(case)
     n = len(cls)
     roots = [r % n for r in case["roots"]]
     root_cls = [cls[r] for r in roots]
@@ -266,6 +269,9 @@ def run_case(case):
     res2 = sut(sort_classes, list(root_cls))
     if is_raised(res2) or [c.__name__ for c in res2] != got:
         return fail("second_sort_differs", f"first {got}, second {res2 if is_raised(res2) else [c.__name__ for c in res2]}", "", labels)
+    for i_, c_ in enumerate(cls):
+        if names[i_] in members and [m.__name__ for m in c_._reftypes] != members[names[i_]]:
+            return fail("sorting_altered_a_class", f"union {names[i_]}: members were {members[names[i_]]}, after sorting {[m.__name__ for m in c_._reftypes]}", "union_members", labels)
     # exactly once, nothing else
     for nm in clo:
         c = got.count(nm)
